@@ -11,6 +11,8 @@ import numpy
 from ECAgent.Core import Agent, Component, Environment, Model
 from ECAgent.Environments import PositionComponent, SpaceWorld
 
+from .worlds import agent_class
+
 from simkit.stepgate import StepGate
 
 PROPERTY = "C13"
@@ -27,7 +29,7 @@ RULE = ("0-8 agents with arbitrary subsets of 4 component types and tags from {d
 COMPONENTS = {"real": ["ECAgent.Core.Environment.get_agents / get_random_agent / shuffle / add_agent / remove_agent",
                        "Agent.has_component", "Model.random", "SpaceWorld (some runs)"],
               "stub": ["component classes and agents are harness-defined; global random / numpy.random are perturbed"]}
-PROBES = ["negative_tag", "unfinished_walk_before_the_query", "position_subclass_component", "tag_zero_filter", "template_and_tag", "nobody_matches", "partial_template_match", "returned_list_mutated",
+PROBES = ["agent_class_slotted_or_with_own_attributes", "negative_tag", "unfinished_walk_before_the_query", "position_subclass_component", "tag_zero_filter", "template_and_tag", "nobody_matches", "partial_template_match", "returned_list_mutated",
           "reach_all_members", "same_seed_repeat", "type_nobody_has", "spatial_world", "default_tag_agent", "retag_while_resident", "model_lifecycle_op", "subclass_component_only", "agent_is_an_environment", "ops_from_inside_a_timestep", "agent_class_with_class_components", "removal_refused_half_way", "history_continued_on_a_copy"]
 TECHNIQUE = "deterministic simulation: filter queries inside seeded add/remove histories vs a list-comprehension reference; bounded reachability over reseeded model generators; ambient RNG perturbation between picks"
 LEVEL_TEXT = ("Seeded search over populations, histories, templates and tag filters; every listing must equal the reference filter "
@@ -151,6 +153,10 @@ def generate(rng, tier):
         for o_ in ops:
             if "tmpl" in o_ and rng.random() < 0.5:
                 o_["tmpl"] = (o_["tmpl"] + [6]) if rng.random() < 0.5 or not o_["tmpl"] else [6 if i_ == 0 else t_ for i_, t_ in enumerate(o_["tmpl"])]
+    if rng.random() < 0.2:
+        for p_ in pool:
+            if rng.random() < 0.5 and not p_.get("pack"):
+                p_["cls"] = rng.choice(["slotted", "ownattrs"])
     if rng.random() < 0.12:
         for p_ in pool:
             if rng.random() < 0.4:
@@ -197,7 +203,9 @@ def execute(sc, ctx):
                 a.tag = tag
             ctx.probe("agent_is_an_environment")
         else:
-            cls = Agent
+            cls = agent_class(spec.get("cls"))
+            if spec.get("cls"):
+                ctx.probe("agent_class_slotted_or_with_own_attributes")
             if spec.get("pack"):
                 cls = Pack
                 ctx.probe("agent_class_with_class_components")
